@@ -387,7 +387,12 @@ func runC03(c *Ctx) {
 			continue
 		}
 		z, n := false, false
-		for _, b := range fn.Blocks {
+		// (the zero-then-nil pair may sit in a private part of lock: `wipePrivKey()`)
+		var lockBlocks []*ssa.BasicBlock
+		for _, lf := range p.regionOf(fn) {
+			lockBlocks = append(lockBlocks, lf.Blocks...)
+		}
+		for _, b := range lockBlocks {
 			for _, ins := range b.Instrs {
 				switch x := ins.(type) {
 				case *ssa.Call:
